@@ -87,3 +87,16 @@ Theorem C11_neighbourhood_never_crashes : forall i perm nw,
   forall s, wreachable nw s -> NPB_lim.FullLimits nw s -> FKs nw s -> no_crash (neighbors nw s).
 Proof. exact neighbors_no_crash_loaded. Qed.
 Print Assumptions C11_neighbourhood_never_crashes.
+
+(** the neighbourhood looks at the last accepted swap in ONE place: after a PathExchange the provider list is rotated so
+    that the last provider comes first (SwapsRot.v; the walks of this check carry the last swap along and compare the
+    rotated enumeration with the code). Whatever the last swap was, the neighbourhood is the same multiset of candidates,
+    and it fails exactly when the unrotated enumeration fails — so every theorem about [neighbors] speaks about every call
+    of neighbors_of, and the existence of a strictly better neighbour (C08: local optimum) does not depend on it *)
+From RS Require Import SwapsRot SwapsRotFacts.
+Theorem C11_neighbourhood_independent_of_last_swap : forall nw, stmt_neighbors_from_perm nw.
+Proof. exact neighbors_from_perm. Qed.
+Print Assumptions C11_neighbourhood_independent_of_last_swap.
+Theorem C11_no_last_swap_is_the_plain_enumeration : forall nw, stmt_neighbors_from_none nw.
+Proof. exact neighbors_from_none. Qed.
+Print Assumptions C11_no_last_swap_is_the_plain_enumeration.
